@@ -204,10 +204,12 @@ FixedPoint(r) ==
 AllEq(seq, x) == \A j \in 1..Len(seq) : seq[j] = x
 
 \* Every chunking gives the one-shot result; the length-delimited decoder consumes exactly its frame.
+\* (a byte string that is not UTF-8 is outside the one-shot parser's domain: only totality applies to it)
 ChunkOne(c) ==
-    /\ c.rd0 = c.one /\ c.wl0 = c.one /\ c.wl0_left = 9
-    /\ AllEq(c.rd, c.one) /\ AllEq(c.wl, c.one) /\ c.wl_left_bad = 0
-    /\ Has(c, "doc") => AllEq(c.doc, c.doc0)
+    \/ Flag(c, "binary")
+    \/ /\ c.rd0 = c.one /\ c.wl0 = c.one /\ c.wl0_left = 9
+       /\ AllEq(c.rd, c.one) /\ AllEq(c.wl, c.one) /\ c.wl_left_bad = 0
+       /\ Has(c, "doc") => AllEq(c.doc, c.doc0)
 ChunkIndependent(r) ==
     (Total(r) /\ Has(r, "chunk")) => \A j \in 1..Len(r.chunk) : ChunkOne(r.chunk[j])
 
